@@ -12,6 +12,9 @@ package router
 import (
 	"iter"
 	"sort"
+	"sync/atomic"
+
+	"github.com/tucats/ego/internal/verifrt/vsched"
 )
 
 var (
@@ -19,7 +22,9 @@ var (
 	verifC32Order  []*Route
 
 	// VerifC32RangeCalls counts how often the rewritten range ran; the harness
-	// uses it to prove that the rewrite is live in the binary it drives.
+	// uses it to prove that the rewrite is live in the binary it drives. It is
+	// bumped atomically because the concurrent part of the check runs lookups
+	// on real goroutines under the race detector.
 	VerifC32RangeCalls int64
 )
 
@@ -73,9 +78,15 @@ func (r *Route) VerifC32Method() string   { return r.method }
 
 // verifC32Range replaces `range m.routes` in the rewritten FindRoute: the
 // order set by the harness if one is set for this router, otherwise sorted.
+//
+// It is also the scheduling seam of the concurrent part of the check: under
+// the controlled scheduler (verifrt/vsched) there is a scheduling point before
+// every route is handed to the loop body and one after the last, i.e. between
+// any two appends to the candidate list and between collection and selection.
+// Outside a controlled execution vsched.Yield does nothing.
 func verifC32Range(m *Router) iter.Seq2[routeSelector, *Route] {
 	return func(yield func(routeSelector, *Route) bool) {
-		VerifC32RangeCalls++
+		atomic.AddInt64(&VerifC32RangeCalls, 1)
 
 		order := verifC32Order
 		if verifC32Router != m || len(order) != len(m.routes) {
@@ -83,9 +94,13 @@ func verifC32Range(m *Router) iter.Seq2[routeSelector, *Route] {
 		}
 
 		for _, r := range order {
+			vsched.Yield()
+
 			if !yield(routeSelector{endpoint: r.endpoint, method: r.method}, r) {
 				return
 			}
 		}
+
+		vsched.Yield()
 	}
 }
